@@ -18,6 +18,10 @@ CLAIMS = {
          "oauth.ValidateJWT, parseAndValidateJWT (and its keyfunc closure, verified as a function of its own), selectVerificationKey, keyByID, allKeys, findKeyByID, refreshJWKS and resetJWKSCache are under contract: a nil error implies the JWT library verified the signature with a key the keyfunc returned (published JWKS keys only, ECDSA/RSA only), expiry was required and lies in the future, issuer/audience options were set from the configuration, and the jti was looked up in the revocation list on this call (both on a result-cache hit and on a miss). The JWKS cache carries a package invariant (every cached key is a published key) checked at every writer; the result cache carries an insertion-time invariant backed by table obligations (call-site census, entry immutability).",
          "Trusted: golang-jwt/v5 ParseWithClaims (signature verification with the keyfunc's key, enforcement of parser options), JWK parsing, tokens.IsIDBlacklisted (revocation list, C21), caches.Find/Add as a map for OAuthJWTCache (C28). Fail-open when the revocation lookup itself errors is outside the property's quantifier and is visible in the contract (lookupFailed). Sequential semantics.",
          "§7 C22"),
+ "C24": ("proof",
+         "The limiter's operations are under functional contracts over the map account -> (failures, lockedUntil), the account being the lower-cased user name auth.ValidatePassword looks up: CheckRateLimit refuses exactly while the account's lock is running and never when the limit is 0, and changes nothing; RecordFailure adds one to the account's count, locks it for the configured period when the count reaches the limit (never before, never shortening a running lock) and does nothing when the limit is 0; RecordSuccess removes the account's record; pruneLoginAttempts never drops a running lock (inductive invariant over the map range). Each carries the frame 'every other account's record is untouched' under the package invariant that records are not shared between accounts. Both login paths (router Authenticate, the OAuth authorize form) check a password only after the limiter allowed that same account, and report every checked attempt to the limiter for the same account (anchored assertions, ghost attempt state). Table obligations: every writer of the map and of the record fields, and every call site of auth.ValidatePassword, is one of the functions under contract.",
+         "The property over histories follows from these per-operation transitions by induction on the history (argument in DESIGN.md; the induction itself is not machine-checked). Sequential semantics: the mutex is trusted to serialise the operations, so the concurrent histories of the quantifier are not covered. Trusted: time.Now is monotone; the configured limit and lockout period are the values read at the operation; float seconds to int keeps the sign; strings.ToLower is idempotent.",
+         "§7 C24"),
  "C25": ("proof",
          "auth.ValidatePassword carries the property statement as a two-way postcondition (result <==> user exists case-insensitively && stored credential matches in its format && logon or root permission), findPermission and HashPassword have their own contracts, and the migration write is an anchored assertion (what is written is a bcrypt hash of the password just accepted, for the same user). All obligations discharge for all inputs.",
          "Trusted: bcrypt compare/generate agree (bcryptOK); the user store behind the userIOService interface returns the stored record (C30/C31); settings.GetBool is a function of the setting name during one call; strings.EqualFold/HashString are functions. Hash collisions are outside the model.",
